@@ -232,7 +232,12 @@ def run(ctx: Ctx) -> None:
                 if n not in counts or math.isnan(m.bwd[n]):
                     continue
                 if op in ("layer_norm", "rms_norm") and n == "weight":
-                    t_ = 1e-5
+                    # the gain-gradient count is sum(xhat^2)/width: statistical (eps and tiny rows), the exact row count
+                    # is read off the bias gradient where there is one
+                    t_ = 5e-3
+                    if "bias" in counts:
+                        counts = {**counts, "weight": counts["bias"]}
+                        t_ = 1e-5
                 else:
                     t_ = 1e3 * tol if op == "dropout" else tol
                 if not rel_close(m.bwd[n] ** 2 * float(counts[n]), 1.0, t_):
